@@ -1,5 +1,6 @@
 import XmpModel.Downmix
 import XmpModel.Gen.SeqWriters
+import XmpModel.C13Timeline
 /-!
 Helper lemmas for C13 (model `XmpModel.Downmix`): ranges of the clamps, the
 stored words, shifts composed, the xor form of the mid-scale offset, buffer
@@ -437,3 +438,28 @@ theorem shr_neg_iff (x : Int) (n : Nat) : x >>> n < 0 ↔ x < 0 := by
   simpa using this
 
 end Xmp.Downmix
+
+/-! ### xmp_set_tempo_factor: the bound in the code is the cap of libxmp_mixer_prepare, a constant -/
+namespace Xmp.C13Timeline
+open Xmp.Gen.MixerConsts
+
+/-- The translator recognised in `xmp_set_tempo_factor` the test `ticksize < 0 || ticksize > (CAP)` with a
+*constant* `CAP` equal to the cap of `libxmp_mixer_prepare` (`XMP_MAX_FRAMESIZE / 4`), the scaling `val *= 10`,
+and that the tested tick size is `libxmp_mixer_get_ticksize(s->freq, val, m->rrate, p->bpm)` in a function that
+does not mention the output format.  (Fails to re-check when the code's bound becomes format dependent.) -/
+theorem tempo_factor_shape :
+    tempoFactorCap = some (ticksizeCap : Int) ∧ tempoFactorScale = some 10 ∧ tempoFactorArgs = some 1 := by decide
+
+theorem getTicksize_range (freq : Int) (tf rrate : D) (bpm : Int) :
+    getTicksize freq tf rrate bpm = -1 ∨ 2 ^ anticlickShift ≤ getTicksize freq tf rrate bpm := by
+  unfold getTicksize
+  split
+  · exact Or.inl rfl
+  · simp only
+    split
+    · exact Or.inl rfl
+    · split
+      · exact Or.inr (Int.le_refl _)
+      · exact Or.inr (by omega)
+
+end Xmp.C13Timeline
